@@ -4,6 +4,8 @@ import OcVerif.Driver.Queue
 import OcVerif.Driver.QConc
 import OcVerif.Driver.Nio
 import OcVerif.Driver.TLCache
+import OcVerif.Driver.Timeouts
+import OcVerif.Driver.RtWait
 /-!
 `ocmodel`: reads history lines `<comp> <id> : <body> => <implementation outputs>` on stdin,
 runs the Lean model on `<body>`, compares with the implementation's outputs and evaluates the
@@ -21,6 +23,8 @@ def dispatch (comp : String) : Option (String → String → Verdict) :=
   | "qconc" => some Driver.QConc.drive
   | "nio" => some Driver.Nio.drive
   | "tlcache" => some Driver.TLCache.drive
+  | "timeouts" => some Driver.Timeouts.drive
+  | "rtwait" => some Driver.RtWait.drive
   | _ => none
 
 def handle (line : String) : String :=
